@@ -305,6 +305,8 @@ impl<C: IterConfig> BucketIter<C> {
         // Check live indexes first
         if let Some((segment_id, index)) = live_indexes.get(&bucket_id) {
             let segment_id = segment_id.load(Ordering::Acquire);
+            #[cfg(feature = "verif")]
+            seglog::verif::apoint("iter:after_segment_id", bucket_id as u64, segment_id as u64).await;
             let matches = match dir {
                 IterDirection::Forward => segment_id >= next_segment_id,
                 IterDirection::Reverse => segment_id <= next_segment_id,
